@@ -3,7 +3,8 @@
 (* A naunet project directory over its life: `naunet init`, hand edits of  *)
 (* naunet_config.toml, `naunet render` with and without --force, `naunet   *)
 (* render --patch`, a second `naunet init`, and `Network.export` into the   *)
-(* same directory (with and without overwrite=True).  Extends C20 ("what   *)
+(* same directory (with and without overwrite=True), and `naunet new`     *)
+(* (a blank project: no network files, an empty network).  Extends C20 ("what *)
 (* is configured is what is rendered") from one init+render to histories.  *)
 (*                                                                         *)
 (*   cfg     the network description currently in naunet_config.toml       *)
@@ -22,9 +23,11 @@ EXTENDS Naturals
 CONSTANTS Descs,       \* set of description ids (positive naturals)
           ExportDescs, \* the descriptions an EXPORTED project can hold (its network file is the native reactions.naunet)
           GpuDescs,    \* the descriptions whose solver runs on the gpu device (their sources are other FILES: *.cu)
+          BlankDescs,  \* the descriptions a BLANK project (`naunet new`: no network files, the empty network) can hold
+          NewDesc,     \* the description `naunet new` writes (the defaults of BaseConfiguration), a member of BlankDescs
           PVariant     \* "asis" | seeded design variants
-InitDescs == Descs \ ExportDescs
-SameKind(a, b) == (a \in ExportDescs) = (b \in ExportDescs)
+InitDescs == (Descs \ ExportDescs) \ BlankDescs
+SameKind(a, b) == (a \in ExportDescs) = (b \in ExportDescs) /\ (a \in BlankDescs) = (b \in BlankDescs)
 (* a directory is not re-purposed for another device here: the old device's source files would stay next to the new ones *)
 SameDevice(a, b) == (a \in GpuDescs) = (b \in GpuDescs)
 
@@ -39,6 +42,14 @@ InitCmd(d) ==
   /\ IF cfg = 0 \/ PVariant = "init_overwrites"
        THEN cfg' = d /\ summ' = 0
        ELSE UNCHANGED <<cfg, summ>>          \* "Project configure file exists. Overwrite?" -> no -> exit
+  /\ UNCHANGED <<tree, patch>>
+
+(* naunet new <dir>: a blank project, only into a directory that does not exist or is empty (anything else: RuntimeError, nothing
+   touched).  The directory of this model is non-empty exactly when something was configured, rendered or patched. *)
+NewCmd ==
+  /\ IF (cfg = 0 /\ tree = 0 /\ patch = 0) \/ PVariant = "new_overwrites"
+       THEN cfg' = NewDesc /\ summ' = 0       \* (the [summary] table of a blank project is all-empty, which is what "no summary" looks like)
+       ELSE UNCHANGED <<cfg, summ>>
   /\ UNCHANGED <<tree, patch>>
 
 (* the user edits the chemistry / solver tables of the configuration file; the [summary] table, if any, stays as it is *)
@@ -72,7 +83,7 @@ Export(d, ow) ==
        ELSE UNCHANGED <<cfg, tree, summ>>
   /\ UNCHANGED patch
 
-PNext == (\E d \in Descs : InitCmd(d) \/ Edit(d)) \/ (\E f \in BOOLEAN : Render(f)) \/ RenderPatch
+PNext == (\E d \in Descs : InitCmd(d) \/ Edit(d)) \/ NewCmd \/ (\E f \in BOOLEAN : Render(f)) \/ RenderPatch
            \/ (\E d \in ExportDescs, ow \in BOOLEAN : Export(d, ow))
 PSpec == PInit /\ [][PNext]_pvars
 
